@@ -192,7 +192,11 @@ func run(c string) (obs string) {
 		extra := ""
 		switch f[0] {
 		case "new":
-			vals = append(vals, errs.New("m"+f[1]))
+			if hx.Atoi(f[1])%2 == 0 {
+				vals = append(vals, errs.New("m"+f[1]))
+			} else { // the formatting constructor builds the same error
+				vals = append(vals, errs.Newf("%s%d", "m", hx.Atoi(f[1])))
+			}
 		case "plain":
 			p := errors.New("p" + f[1])
 			plains[len(vals)] = p
@@ -295,7 +299,7 @@ func run(c string) (obs string) {
 		fmtok := ""
 		if le, ok := last.(*errs.Error); ok && le != nil && le.ErrorOrNil() != nil {
 			s1, s2, s3 := fmt.Sprintf("%s", le), fmt.Sprintf("%q", le), fmt.Sprintf("%+v", le)
-			ok1 := s1 == le.Message() && s2 == fmt.Sprintf("%q", le.Message()) && strings.HasPrefix(s3, le.Message()) &&
+			ok1 := s1 == le.Message() && le.Error() == fmt.Sprintf("%v", le) && s2 == fmt.Sprintf("%q", le.Message()) && strings.HasPrefix(s3, le.Message()) &&
 				strings.Contains(s3, "main.run") && strings.Contains(fmt.Sprintf("%v", le), "main.run")
 			fmtok = " fmt=" + hx.B2i(ok1)
 		}
